@@ -2,7 +2,7 @@
 """Confirm a seeded change in a scratch worktree and file it under /verif/seeded/<id>/.
 
 usage: confirm_seed.py <PID> <K> <testdir> [<testdir> ...]
-Reads /tmp/seed_out/<PID>/patch<K>.diff, demo<K>.py, meta.json.
+Reads $SEED_SRC (default /tmp/seed_out)/<PID>/patch<K>.diff, demo<K>.py, meta.json; files the seed as <PID>-<K + $SEED_OFFSET>.
 """
 import json
 import os
@@ -13,10 +13,10 @@ import time
 
 pid, k = sys.argv[1], sys.argv[2]
 tests = sys.argv[3:]
-src = f"/tmp/seed_out/{pid}"
+src = os.environ.get("SEED_SRC", "/tmp/seed_out") + f"/{pid}"
 patch, demo = f"{src}/patch{k}.diff", f"{src}/demo{k}.py"
 wt = f"/tmp/cs_{pid}_{k}"
-out = f"/verif/seeded/{pid}-{k}"
+out = f"/verif/seeded/{pid}-{int(k) + int(os.environ.get('SEED_OFFSET', '0'))}"
 PY = "/venv/bin/python"
 
 
